@@ -86,7 +86,7 @@ class CoqBatch:
             fn = os.path.join(d, f'cases_{k // shard}.v')
             with open(fn, 'w') as f:
                 f.write('From Coq Require Import List ZArith NArith Bool String.\n'
-                        'From PK Require Import PyList Episodes Stage ZInst.\n'
+                        'From PK Require Import PyList Episodes Stage Helpers ZInst.\n'
                         + self.header_extra +
                         'Import ListNotations.\nOpen Scope Z_scope.\n')
                 names = []
@@ -96,7 +96,7 @@ class CoqBatch:
                     body = ';\n  '.join(f'({i}%nat, {e})' for i, e in checks)
                     f.write(f'Definition {nm} : list (nat * bool) := [\n  {body}].\n')
                     names.append(nm)
-                f.write('Definition all_checks := ' + ' ++ '.join(names or ['[]']) + '.\n')
+                f.write('Definition all_checks : list (nat * bool) := List.concat [' + '; '.join(names) + '].\n')
                 f.write('Eval vm_compute in failed all_checks.\n')
             files.append(fn)
         from concurrent.futures import ThreadPoolExecutor
